@@ -189,6 +189,7 @@ func compileRegexp(patternStr, flags string) (p *regexpPattern, err error) {
 	var global, ignoreCase, multiline, dotAll, sticky, unicode bool
 	var wrapper *regexpWrapper
 	var wrapper2 *regexp2Wrapper
+	var re2Empty bool
 
 	if flags != "" {
 		invalidFlags := func() {
@@ -270,6 +271,7 @@ func compileRegexp(patternStr, flags string) (p *regexpPattern, err error) {
 			}
 		} else {
 			wrapper = (*regexpWrapper)(pattern)
+			re2Empty = re2MayMatchEmpty(re2Str)
 		}
 	} else {
 		var incompat parser.RegexpErrorIncompatible
@@ -287,15 +289,16 @@ func compileRegexp(patternStr, flags string) (p *regexpPattern, err error) {
 	}
 
 	p = &regexpPattern{
-		src:            patternStr,
-		regexpWrapper:  wrapper,
-		regexp2Wrapper: wrapper2,
-		global:         global,
-		ignoreCase:     ignoreCase,
-		multiline:      multiline,
-		dotAll:         dotAll,
-		sticky:         sticky,
-		unicode:        unicode,
+		src:              patternStr,
+		regexpWrapper:    wrapper,
+		regexp2Wrapper:   wrapper2,
+		re2MayMatchEmpty: re2Empty,
+		global:           global,
+		ignoreCase:       ignoreCase,
+		multiline:        multiline,
+		dotAll:           dotAll,
+		sticky:           sticky,
+		unicode:          unicode,
 	}
 	return
 }
